@@ -28,7 +28,7 @@ fn main() {
     match prop.as_str() {
         "c15" => {
             let mut starts = gen::Starts::new(4095, 30000, args.shard as usize * 5);
-            let n = args.budget(400_000, 8_000_000) / args.nshards.max(1);
+            let n = args.budget(2_000_000, 40_000_000) / args.nshards.max(1);
             for i in 0..n {
                 match i % 4 {
                     0 | 1 => c15::positive(&mut rng, &mut starts, &mut rep),
@@ -41,7 +41,7 @@ fn main() {
             }
         }
         "c17" => {
-            let n = args.budget(4_000, 80_000) / args.nshards.max(1);
+            let n = args.budget(16_000, 400_000) / args.nshards.max(1);
             let cfgs = if args.thorough { 40 } else { 20 };
             for _ in 0..n {
                 c17::check_database(&mut rng, &mut rep, cfgs);
